@@ -69,6 +69,18 @@ pub fn files_of(mods: &[RMod]) -> Files {
     mods.iter().map(|m| (m.path.clone(), m.text.clone())).collect()
 }
 
+/// (phase, text): each is rejected by the language whatever precedes it — if that is accepted
+/// these lines are wrong on their own account, if not the program is rejected anyway.
+pub const POISON_TRAILERS: &[(&str, &str)] = &[
+    ("resolution", "let zz_undefined_use = { 'p zz_not_defined };"),
+    ("type", "let zz_ill_typed = { 'a num } & str;"),
+    ("cycle", "let zz_cyc_a = zz_cyc_b;\nlet zz_cyc_b = zz_cyc_a;"),
+    ("cycle", "let zz_u = concat zz_u /zz;\nlet @zz_wf = { 'next @zz_wf };"),
+    ("cycle", "let zz_f x = zz_g x;\nlet zz_g x = zz_f x;\nlet @zz_wf2 = { 'next @zz_wf2 };"),
+    ("type", "let zz_deep = 'p ('q zz_deep);"),
+    ("type", "let zz_deep_f x = 'p ('q (zz_deep_f x));"),
+];
+
 /// Error injection by phase; returns (phase, modified files).
 pub fn inject_error(files: &Files, rng: &mut Rng) -> (&'static str, Files) {
     let mut f = files.clone();
@@ -80,9 +92,9 @@ pub fn inject_error(files: &Files, rng: &mut Rng) -> (&'static str, Files) {
         0 => *rng.pick(&[0usize, 1, 9, 10, 11, 11]),
         1 => *rng.pick(&[2usize, 3]),
         2 => 4,
-        3 => 5,
-        4 => 6,
-        5 => 7,
+        3 => *rng.pick(&[5usize, 5, 12, 13]),
+        4 => *rng.pick(&[6usize, 6, 12]),
+        5 => *rng.pick(&[7usize, 7, 12]),
         _ => 8,
     };
     let phase = match kind {
@@ -125,6 +137,25 @@ pub fn inject_error(files: &Files, rng: &mut Rng) -> (&'static str, Files) {
                 t.push_str(*rng.pick(&[" ^", "^^^", " \"never closed", " 😉"]));
             }
             "lexical"
+        }
+        12 => {
+            // statements that are wrong whatever else the program holds, as the last lines of
+            // the main module (see `cli_sim::certainly_invalid`)
+            let k = rng.below(POISON_TRAILERS.len());
+            let t = f.get_mut("main.oal").unwrap();
+            if !t.ends_with('\n') {
+                t.push_str(nl);
+            }
+            t.push_str(&POISON_TRAILERS[k].1.replace('\n', nl));
+            t.push_str(nl);
+            POISON_TRAILERS[k].0
+        }
+        13 => {
+            // an imported module that holds nothing but a resource, and that one is wrong
+            f.insert("zz_only_res.oal".into(), format!("res /zz-only-res on get -> <zz_not_defined>;{nl}"));
+            let t = f.get_mut("main.oal").unwrap();
+            *t = format!("use \"zz_only_res.oal\";{nl}{}", t);
+            "resolution"
         }
         9 => {
             // a byte order mark: no token starts with U+FEFF, every front end must reject it alike
